@@ -189,14 +189,14 @@ public:
     {
         apply(result_, *(x.get_arg()));
         mpfr_ui_div(result_, 1, result_, rnd_);
-        mpfr_asin(result_, result_, rnd_);
+        mpfr_acos(result_, result_, rnd_);
     }
 
     void bvisit(const ACsc &x)
     {
         apply(result_, *(x.get_arg()));
         mpfr_ui_div(result_, 1, result_, rnd_);
-        mpfr_acos(result_, result_, rnd_);
+        mpfr_asin(result_, result_, rnd_);
     }
 
     void bvisit(const ATan &x)
